@@ -189,7 +189,8 @@ func prepDataVV(a, b Tensor, reuse Tensor) (dataA, dataB, dataReuse *storage.Hea
 		(reuse != nil && reuse.RequiresIterator()) ||
 		!a.DataOrder().HasSameOrder(b.DataOrder()) ||
 		(reuse != nil && (!a.DataOrder().HasSameOrder(reuse.DataOrder()) || !b.DataOrder().HasSameOrder(reuse.DataOrder()))) ||
-		(reuse != nil && (differentLayout(a, reuse) || differentLayout(b, reuse)))
+		(reuse != nil && (differentLayout(a, reuse) || differentLayout(b, reuse))) ||
+		differentLayout(a, b) // (an operand that once served as reuse tensor may carry an order flag that its strides do not follow)
 	if useIter && flatSingle(a, b, reuse) {
 		useIter = false
 	}
